@@ -27,6 +27,14 @@ def items_for(tab, n):
     return LIST_ITEMS[:8] + (LIST_ITEMS_ESC if n in ('Log',) else [])
 
 
+def py_items_for(tab, n):
+    """what an application may put into the list: for port lists also ints, as in the class docstring
+    (`conf.SOCKSPort = [9050, 1337]`); 0 means "do not listen"""
+    if tab.types.get(n) == 'PortLines':
+        return items_for(tab, n) + [9150, 0, 1337]
+    return items_for(tab, n)
+
+
 def tor_values(tab, n, items):
     """how Tor holds a list: line lists one value per line, comma lists one comma-separated value"""
     if n in tab.commas:
@@ -122,7 +130,7 @@ def gen_ops(rng, store, defaults, *, n_ops, conf_events, aliasing, options=None,
             pending_assigned.add(n)
         elif r < 0.30:
             n = rng.choice(lists)
-            v = [rng.choice(items_for(tab, n)) for _ in range(rng.randint(0 if rng.random() < 0.3 else 1, 3))]
+            v = [rng.choice(py_items_for(tab, n)) for _ in range(rng.randint(0 if rng.random() < 0.3 else 1, 3))]
             src = None
             others = [m for m in lists if m != n and (m in tab.commas) == (n in tab.commas) and m not in pending_assigned]
             if others and rng.random() < 0.3:
@@ -133,9 +141,10 @@ def gen_ops(rng, store, defaults, *, n_ops, conf_events, aliasing, options=None,
                     v = [str(x) for x in cur]
                 else:
                     src = None
-            if inflight and (v == last_assigned.get(n) or v == [str(x) for x in getattr(im.cfg, n)]):
+            vs = [str(x) for x in v]
+            if inflight and (vs == last_assigned.get(n) or vs == [str(x) for x in getattr(im.cfg, n)]):
                 continue
-            last_assigned[n] = list(v)
+            last_assigned[n] = list(vs)
             do(['assign', spell(n), v] + ([src] if src else []))
             pending_assigned.add(n)
         elif r < 0.58:
@@ -146,7 +155,7 @@ def gen_ops(rng, store, defaults, *, n_ops, conf_events, aliasing, options=None,
             if not isinstance(cur, list) or any(not isinstance(x, str) for x in cur):
                 continue        # the view lost its shape: nothing sensible to edit (the reads already show it)
             cur = list(cur)
-            pool = items_for(tab, n)
+            pool = py_items_for(tab, n)
             kinds = ['append', 'extend', 'insert']
             if len(cur) > 1 or (cur and rng.random() < 0.25):
                 kinds += ['remove', 'pop', 'setitem']
